@@ -112,7 +112,8 @@ func (x *runner) enc(arg string) string {
 		return "illtyped"
 	}
 	vreason := valueInexpressible(top, v)
-	vx := " vx=" + b01(vreason == "")
+	// ValExpressible, WellTyped and the documented result of decoding the encoding, stated by the harness
+	vx := " vx=" + b01(vreason == "") + " wt=" + b01(allHard(top, v) == "") + " c=" + expect(top, v).Canon()
 	ptr := reflect.New(top.rt)
 	ptr.Elem().Set(rv)
 	ctx := context.Background()
